@@ -56,9 +56,11 @@ LEVEL = 'model_checking'
 T0 = time.time()
 # wall clock plan (seconds after start): the replay stops taking new cases at REPLAY_END (but always gets REPLAY_MIN),
 # so that only the coverage -- never a verdict -- depends on the load of the machine
-PLAN = dict(quick=dict(nproc=5, ntlc=9, replay_end=60, replay_min=14, ntab=4),
+PLAN = dict(quick=dict(nproc=5, ntlc=11, replay_end=60, replay_min=14, ntab=4),
             thorough=dict(nproc=10, ntlc=8, replay_end=600, replay_min=150, ntab=6))
-WORKROOT = os.path.join(tlc.WORK, 'c12')
+# several runs side by side (mutation testing with VF_REPO / VF_OUT) need scratch directories of their own
+RUNTAG = 'c12' + os.environ.get('VF_C12_TAG', '')
+WORKROOT = os.path.join(tlc.WORK, RUNTAG)
 
 # runs of a few seconds: C1 compiler only, few GC / compiler threads (many JVMs run side by side)
 LEAN_JVM = dict(JAVA_TOOL_OPTIONS='-XX:TieredStopAtLevel=1 -XX:ParallelGCThreads=2 -XX:CICompilerCount=1')
@@ -66,7 +68,7 @@ LEAN_JVM = dict(JAVA_TOOL_OPTIONS='-XX:TieredStopAtLevel=1 -XX:ParallelGCThreads
 MERGE_ACTIONS = ['AddSet', 'Start', 'MergeStep', 'StartFinish', 'Finish', 'Done']
 # vacuity guard: every action of every machine must have been taken in the TLC run made with -coverage
 ACTIONS = dict(struct=['SplineDim', 'Ravel', 'DiscontOn', 'LegendreOn', 'RemoveDofs', 'Mask', 'Prune', 'Part'], merge=MERGE_ACTIONS,
-               nodal=['AddSimplex', 'Build'], hier=['Refine', 'Build'], multi=['AddPatch', 'Build'])
+               nodal=['AddSimplex', 'Build'])
 STRUCT_OPS = ['dim', 'ravel', 'discont', 'legendre', 'rem', 'mask', 'prune', 'part']
 # spec mutant -> invariants one of which must be violated
 MUTANTS = {
@@ -144,9 +146,9 @@ def plan(tier, seed):
         jobs['struct-der'] = ('struct', 'MCBasis', dict(cfg='MCBasis_der.cfg'), True)
         jobs['struct-rnd'] = ('struct', 'MCBasisRnd', dict(cfg_text=_cfg_basis('RndA', 'RndB', 2, 'Rem_3', 3, 5, 3), extra_modules=[rnd], simulate=dict(num=12), depth=8, seed=seed), False)
         jobs['merge'] = ('merge', 'MergeIndex', dict(cfg='MergeIndex.cfg', coverage=True), True)
-        jobs['nodal'] = ('nodal', 'MCNodal', dict(cfg='MCNodal.cfg', coverage=True), True)
-        jobs['hier'] = ('hier', 'MCHier', dict(cfg='MCHier.cfg', coverage=True), True)
-        jobs['multi'] = ('multi', 'MCMulti', dict(cfg='MCMulti.cfg', coverage=True), True)
+        jobs['nodal'] = ('nodal', 'MCNodal', dict(cfg='MCNodal.cfg'), True)
+        jobs['hier'] = ('hier', 'MCHier', dict(cfg='MCHier.cfg'), True)
+        jobs['multi'] = ('multi', 'MCMulti', dict(cfg='MCMulti.cfg'), True)
         muts = [sorted(MUTANTS)[seed % len(MUTANTS)]]
     else:
         jobs['struct-1d'] = ('struct', 'MCBasis', dict(cfg_text=_cfg_basis('Dims_1d_big', 'Dims_1d_big', 1, 'Rem_3', 0, 0, 0, kinds='Kinds_struct')), True)
@@ -168,12 +170,12 @@ def plan(tier, seed):
         jobs['multi'] = ('multi', 'MCMulti', dict(cfg_text=_cfg_generic(['BoxW = 3', 'BoxH = 2', 'MaxPatches = 4', 'NSet <- N_12', 'BuildSet <- Builds_all'], MULTI_INVS)), True)
         jobs['multi-1d'] = ('multi', 'MCMulti', dict(cfg_text=_cfg_generic(['BoxW = 4', 'BoxH = 0', 'MaxPatches = 4', 'NSet <- N_123', 'BuildSet <- Builds_all'], MULTI_INVS)), True)
         muts = sorted(MUTANTS)
-    # a small complete run of BasisMachine (two factors, every construction, one derived step) with TLC's action coverage
+    # small complete runs with TLC's action coverage: the vacuity guard of generate().  (-coverage is expensive on the
+    # tabulating operators of these specs, so the large runs are made without it; on BasisHier and BasisMulti TLC exhausts
+    # its heap under -coverage even for the smallest constants: their two actions are counted from the states TLC emits,
+    # a Build state with a cell of level >= 1 / with >= 2 patches proves that Refine / AddPatch and Build were taken)
     jobs['struct-cov'] = ('struct', 'MCBasis', dict(cfg_text=_cfg_basis('Dims_cov', 'Dims_cov', 2, 'Rem_2', 1, 4, 3), coverage=True), True)
-    if tier != 'quick':
-        jobs['nodal-cov'] = ('nodal', 'MCNodal', dict(cfg='MCNodal.cfg', coverage=True), True)
-        jobs['hier-cov'] = ('hier', 'MCHier', dict(cfg='MCHier.cfg', coverage=True), True)
-        jobs['multi-cov'] = ('multi', 'MCMulti', dict(cfg='MCMulti.cfg', coverage=True), True)
+    jobs['nodal-cov'] = ('nodal', 'MCNodal', dict(cfg_text=_cfg_generic(['MaxV = 3', 'MaxSimp = 2', 'DimSet <- Dims_1', 'BuildSet <- Builds_cov', 'AnyOrder = FALSE'], NODAL_INVS), coverage=True), True)
     for m in muts:
         module, want = MUTANTS[m]
         if module == 'MCBasis':
@@ -190,7 +192,7 @@ def _run_job(item):
     cfg = kw.pop('cfg', None)
     kw.setdefault('timeout', 1500)
     kw.setdefault('env', LEAN_JVM if _STATE.get('tier') == 'quick' or fam == 'mutant' else None)
-    res = tlc.run(module, cfg, tag='c12-' + name, workers=2, deadlock=False, expect_violation=(fam == 'mutant'), **kw)
+    res = tlc.run(module, cfg, tag=RUNTAG + '-' + name, workers=2, deadlock=False, expect_violation=(fam == 'mutant'), **kw)
     return name, res
 
 
@@ -235,6 +237,12 @@ def generate(rep, jobs):
         if missing:
             raise RuntimeError('{} machine: builds never reached: {}'.format(fam, missing))
         rep.actions.update({'{}:{}'.format(fam, k): v for k, v in got.items()})
+    steps = {'BasisHier:Refine': sum(1 for e in emitted['hier'] if any(c[0] >= 1 for c in e['hist'][0]['cells'])), 'BasisHier:Build': len(emitted['hier']),
+             'BasisMulti:AddPatch': sum(1 for e in emitted['multi'] if len(e['hist'][0]['patches']) >= 2), 'BasisMulti:Build': len(emitted['multi'])}
+    missing = [a for a, n in steps.items() if not n]
+    if missing:
+        raise RuntimeError('actions never taken (counted from the emitted states): {}'.format(missing))
+    rep.extra['actions_counted_from_emitted_states'] = steps
     if not any(e['condense'] for e in emitted['merge']) or all(e['condense'] for e in emitted['merge']) or not any(e['count'] < e['nin'] for e in emitted['merge']):
         raise RuntimeError('MergeIndex machine: no merging behaviour reached')
     rep.actions.update({'struct:' + k: v for k, v in ops.items()})
@@ -405,7 +413,7 @@ def judge_tables(rep, tables):
         path = os.path.join(WORKROOT, 'tables{}.json'.format(c))
         with open(path, 'w') as f:
             json.dump([{k: v for k, v in recs[i].items() if k != 'key'} for i in parts[c]], f)
-        return tlc.run('BasisTables', 'BasisTables.cfg', tag='c12-tables{}'.format(c), workers=1, env=dict(LEAN_JVM if rep.tier == 'quick' else {}, VF_TABLE=path),
+        return tlc.run('BasisTables', 'BasisTables.cfg', tag='{}-tables{}'.format(RUNTAG, c), workers=1, env=dict(LEAN_JVM if rep.tier == 'quick' else {}, VF_TABLE=path),
                        deadlock=False, timeout=1500, heap='4g')
     with concurrent.futures.ThreadPoolExecutor(max_workers=nchunk) as pool:
         results = list(pool.map(judge, range(nchunk)))
